@@ -8,6 +8,8 @@ import (
 	"context"
 	"encoding/json"
 	"fmt"
+	"os"
+	"regexp"
 	"sort"
 	"strings"
 	"testing"
@@ -29,6 +31,8 @@ type family struct {
 	schema  *gast.Schema
 	layouts []*fedlab.Layout
 	ops     []*fedlab.Op
+	// opFilter, when set, selects the base operations run on a layout
+	opFilter func(l *fedlab.Layout, op *fedlab.Op) bool
 }
 
 func argMenuCore(t, f string) [][]fedlab.ArgUse {
@@ -411,6 +415,66 @@ func nearFamily(run *vk.Run, name string, s *fedlab.Supergraph, u *fedlab.Univer
 	return f
 }
 
+// keysFamily: S-keys - one entity whose keys every subgraph declares
+// differently (subset of the keys, @external members, extra key fields, an
+// entry field that @provides an external member); all satisfiable assignments.
+func keysFamily(run *vk.Run) *family {
+	s := fedlab.SKeys()
+	f := &family{name: "S-keys", s: s, u: fedlab.SKeysUniverse(s), schema: mustSchema(s.SDL())}
+	d := s.Distributable()
+	f.base = make([]int, len(d))
+	f.layouts = append(f.layouts, fedlab.NewLayout(s, 1, make([]int, len(d)), "mono"))
+	owners := func(n int) []int {
+		v := make([]int, len(d))
+		for i, r := range d {
+			switch r.String() {
+			case "Query.newest", "Product.price":
+				v[i] = 1
+			case "Product.stock":
+				v[i] = n - 1
+			}
+		}
+		return v
+	}
+	newest := fedlab.FieldRef{Type: "Query", Field: "newest"}
+	f.layouts = append(f.layouts, fedlab.KeyLayouts(s, "Product", 2, owners(2), newest, -1)...)
+	// three subgraphs (routes of two jumps): at most one subgraph with an
+	// @external member / extra key field; quick runs only the single-field
+	// selections below products and newest on them
+	f.layouts = append(f.layouts, fedlab.KeyLayouts(s, "Product", 3, owners(3), newest, 1)...)
+	if !run.Thorough() {
+		f.opFilter = func(l *fedlab.Layout, op *fedlab.Op) bool {
+			if l.N < 3 {
+				return true
+			}
+			return len(op.Sel) == 1 && op.Sel[0].Name != "product" && len(op.Sel[0].Sub) == 1
+		}
+	}
+	menu := func(t, fn string) [][]fedlab.ArgUse {
+		if t+"."+fn == "Query.product" {
+			return [][]fedlab.ArgUse{{{Name: "sku", Value: `"s2"`}}, {{Name: "sku", Value: `"nope"`}}}
+		}
+		return nil
+	}
+	f.ops = fedlab.GenOps(fedlab.GenConfig{Schema: f.schema, Widths: []int{1, 2}, ArgMenu: menu}, "query")
+	return f
+}
+
+var keysOpRe = regexp.MustCompile(`^\{(\w+)(?:\([^)]*\))? \{([^{}]*)\}\}$`)
+
+// violationClass: the family name; for S-keys refined by the shape of the key
+// routes the case needs (known planner limitations are recorded per shape).
+func violationClass(f *family, l *fedlab.Layout, opText string) string {
+	if f.name != "S-keys" || l.KeyUse == nil {
+		return f.name
+	}
+	m := keysOpRe.FindStringSubmatch(opText)
+	if m == nil {
+		return f.name
+	}
+	return f.name + ": " + l.KeyRouteClass("Product", fedlab.FieldRef{Type: "Query", Field: m[1]}, strings.Fields(m[2]))
+}
+
 func families(run *vk.Run) []*family {
 	core := fedlab.SCore()
 	abs := fedlab.SAbs()
@@ -445,14 +509,15 @@ func families(run *vk.Run) []*family {
 			}
 			return nil
 		}, nil, []int{1, 2, 1}, []int{1, 2, 2}),
+		keysFamily(run),
 	}
 }
 
 func TestCheck(t *testing.T) {
 	run := vk.Start("C01", "exploration")
 	defer run.Finish()
-	run.Rule("federation layouts (owner assignment of every root and non-key entity field within Hamming distance d of a by-type base layout, 2-3 subgraphs, plus the monolith) x all selection trees below the width/depth bounds x every single decoration at every site; distinct = distinct (operation, layout) response/request-count outcomes")
-	run.Assume("reference executor R1 (internal/refexec) and subgraph simulator R2 (internal/fedlab) implement the GraphQL execution semantics; layouts are satisfiable by construction; the data universe is consistent")
+	run.Rule("federation layouts (owner assignment of every root and non-key entity field within Hamming distance d of a by-type base layout, 2-3 subgraphs, plus the monolith; S-keys: every satisfiable assignment of a key declaration - subset of 3 keys incl. a compound one, <=1 @external member, <=1 extra key field, optional @provides of the external member on an entry field - to each of 2 subgraphs, and to each of 3 subgraphs with <=1 subgraph using @external / extra key fields) x all selection trees below the width/depth bounds x every single decoration at every site; distinct = distinct (operation, layout) response/request-count outcomes")
+	run.Assume("reference executor R1 (internal/refexec) and subgraph simulator R2 (internal/fedlab) implement the GraphQL execution semantics; layouts are satisfiable by construction (S-keys: by the rule of fedlab.Satisfiable - every jump uses a key all of whose members the source subgraph resolves itself or, at the entry, @provides; the mini-composer adds implicit keys the way the repository's own multi-hop tests configure them); the data universe is consistent")
 	// binding of the mini-composer to the two router configurations composed by
 	// the real Cosmo composition that ship in the repository (infrastructure
 	// precondition: a difference is a broken harness, not a verdict)
@@ -464,18 +529,29 @@ func TestCheck(t *testing.T) {
 	}
 	run.Count("composer_binding_configs", 2)
 	fams := families(run)
+	if only := os.Getenv("VERIF_ONLY_FAMILY"); only != "" { // development aid
+		var keep []*family
+		for _, f := range fams {
+			if f.name == only {
+				keep = append(keep, f)
+			}
+		}
+		fams = keep
+	}
 	if run.Replay != "" {
 		var in struct {
-			Family   string           `json:"family"`
-			Layout   []int            `json:"layout"`
-			N        int              `json:"n"`
-			Suffix   string           `json:"suffix"`
-			Provides []string         `json:"provides"`
-			Shared   map[string][]int `json:"shared"`
-			Unresolv map[string][]int `json:"unresolvable"`
-			Op       string           `json:"op"`
-			OpName   string           `json:"opname"`
-			Vars     map[string]any   `json:"vars"`
+			Family   string                               `json:"family"`
+			Layout   []int                                `json:"layout"`
+			N        int                                  `json:"n"`
+			Suffix   string                               `json:"suffix"`
+			Provides []string                             `json:"provides"`
+			Shared   map[string][]int                     `json:"shared"`
+			Unresolv map[string][]int                     `json:"unresolvable"`
+			KeyUse   map[string]map[string]*fedlab.KeyUse `json:"keyuse"`
+			ProvSel  map[string]string                    `json:"provides_sel"`
+			Op       string                               `json:"op"`
+			OpName   string                               `json:"opname"`
+			Vars     map[string]any                       `json:"vars"`
 		}
 		if err := run.ReplayInput(&in); err != nil {
 			t.Fatal(err)
@@ -496,6 +572,20 @@ func TestCheck(t *testing.T) {
 			for k, v := range in.Unresolv {
 				l.Unresolv[k] = v
 			}
+			for tn, m := range in.KeyUse {
+				for sg, ku := range m {
+					var i int
+					fmt.Sscan(sg, &i)
+					l.SetKeyUse(tn, i, ku)
+				}
+			}
+			for k, v := range in.ProvSel {
+				parts := strings.SplitN(k, ".", 2)
+				if l.ProvidesSel == nil {
+					l.ProvidesSel = map[fedlab.FieldRef]string{}
+				}
+				l.ProvidesSel[fedlab.FieldRef{Type: parts[0], Field: parts[1]}] = v
+			}
 			for _, sg := range l.Subgraphs() {
 				fmt.Printf("---- subgraph %s\n%s", sg.Name, sg.SDL)
 			}
@@ -514,7 +604,7 @@ func TestCheck(t *testing.T) {
 			run.Eval(1)
 			for _, fl := range fails {
 				fmt.Printf("FAILED %s [%s]\n%s\n", fl.clause, fl.site, fl.detail)
-				run.Violate(vk.Violation{Clause: fl.clause, Site: fl.site, Class: f.name, Detail: fl.detail})
+				run.Violate(vk.Violation{Clause: fl.clause, Site: fl.site, Class: violationClass(f, l, in.Op), Detail: fl.detail})
 			}
 		}
 		return
@@ -563,6 +653,9 @@ func TestCheck(t *testing.T) {
 				continue
 			}
 			for oi, base := range f.ops {
+				if f.opFilter != nil && !f.opFilter(l, base) {
+					continue
+				}
 				variants := []*fedlab.Op{base}
 				// quick: decorations on the base layouts (and every 7th operation on
 				// the monolith); thorough: on every federated layout
@@ -581,10 +674,23 @@ func TestCheck(t *testing.T) {
 					if run.Outcome(fmt.Sprintf("%s|%s|%s", l.String(), base.String(), outcome)) {
 						run.Sample(f.name+"/"+l.Name, map[string]any{"layout": l.String(), "operation": op.String(), "variables": op.Vars, "outcome": outcome})
 					}
+					if dump := os.Getenv("VERIF_DUMP_FAILS"); dump != "" && (len(fails) > 0 || os.Getenv("VERIF_DUMP_ALL") != "") { // development aid
+						if fh, err := os.OpenFile(fmt.Sprintf("%s.%d", dump, os.Getpid()), os.O_APPEND|os.O_CREATE|os.O_WRONLY, 0o644); err == nil {
+							for _, fl := range fails {
+								b, _ := json.Marshal(map[string]any{"layout": l.Name, "op": op.String(), "clause": fl.clause, "site": fl.site, "detail": firstLine(fl.detail)})
+								fh.Write(append(b, '\n'))
+							}
+							if len(fails) == 0 {
+								b, _ := json.Marshal(map[string]any{"layout": l.Name, "op": op.String(), "clause": "", "site": "", "detail": ""})
+								fh.Write(append(b, '\n'))
+							}
+							fh.Close()
+						}
+					}
 					for _, fl := range fails {
-						run.Violate(vk.Violation{Clause: fl.clause, Site: fl.site, Class: f.name,
+						run.Violate(vk.Violation{Clause: fl.clause, Site: fl.site, Class: violationClass(f, l, op.String()),
 							Detail: fmt.Sprintf("layout %s\noperation %s\nvariables %v\ndecoration %q\n%s", l.String(), op.String(), op.Vars, op.Note, fl.detail),
-							Input:  map[string]any{"family": f.name, "layout": l.OwnerVector(), "n": l.N, "suffix": suffixOf(l.Name), "provides": l.ProvidesList(), "shared": l.SharedMap(), "unresolvable": l.Unresolv, "op": op.String(), "opname": op.Name, "vars": op.Vars}})
+							Input:  map[string]any{"family": f.name, "layout": l.OwnerVector(), "n": l.N, "suffix": suffixOf(l.Name), "provides": l.ProvidesList(), "shared": l.SharedMap(), "unresolvable": l.Unresolv, "keyuse": l.KeyUseJSON(), "provides_sel": l.ProvidesSelMap(), "op": op.String(), "opname": op.Name, "vars": op.Vars}})
 					}
 				}
 				if oi%50 == 0 && run.Expired() {
